@@ -417,11 +417,15 @@ where
 impl<A, B, C> Layered<A, B, C>
 where
     A: Subscribe<C>,
+    B: 'static,
     C: Collect,
 {
     pub(super) fn new(subscriber: A, inner: B, inner_has_subscriber_filter: bool) -> Self {
+        // Is the *inner value* a `Registry`? (Not the collector type parameter `C`: when this
+        // `Layered` is a `Subscribe` built by `and_then` and later added to a `Registry`,
+        // `C` is `Registry` but `inner` is just another subscriber.)
         #[cfg(all(feature = "registry", feature = "std"))]
-        let inner_is_registry = TypeId::of::<C>() == TypeId::of::<crate::registry::Registry>();
+        let inner_is_registry = TypeId::of::<B>() == TypeId::of::<crate::registry::Registry>();
         #[cfg(not(all(feature = "registry", feature = "std")))]
         let inner_is_registry = false;
 
